@@ -375,7 +375,7 @@ class SecGen(F.Gen):
       stride     strides / directions that differ between the two sides (no overlap)
       open       whole arrays (also with different lower bounds), `:` subscripts, zero-size sections, variable bounds
       partial    one-sided bounds `:hi`, `lo:`, `::st`
-      intrinsic  sections as arguments of elemental intrinsics (no overlap)
+      intrinsic  sections as arguments of elemental intrinsics (no overlap; explicit bounds or whole arrays)
       masked     WHERE / ELSEWHERE constructs (mask over whole arrays, sections, 2-d; mask operands redefined by the
                  body; several assignments per part; one form with a masked ELSEWHERE)
     Further knobs (classes of the surrounding code):
@@ -526,14 +526,14 @@ class SecGen(F.Gen):
             W(F.cmp_('>', V('ia'), N(c)), [assign(V('ia'), _m(op('sum', V('ia'), N(10))))], [assign(V('ia'), op('neg', V('ia')))]),
             W(F.cmp_('>', el('ia', rng_(N(0), N(3))), N(0)), [assign(el('ia', rng_(N(1), N(4))), _m(op('sum', el('ia', rng_(N(0), N(3))), N(1)))),
                                                             assign(el('ia', rng_(N(1), N(4))), _m(op('prod', el('ia', rng_(N(1), N(4))), N(2))))]),
-            W(F.cmp_('==', call('mod', el('ib', rng_(), N(j)), N(2)), N(0)), [assign(el('ib', rng_(), N(j2)), el('ib', rng_(), N(j)))],
-              [assign(el('ib', rng_(), N(j2)), N(0))]),
+            W(F.cmp_('==', call('mod', el('ib', rng_(N(1), N(3)), N(j)), N(2)), N(0)), [assign(el('ib', rng_(N(1), N(3)), N(j2)), el('ib', rng_(N(1), N(3)), N(j)))],
+              [assign(el('ib', rng_(N(1), N(3)), N(j2)), N(0))]),
             W(op('and', F.cmp_('>', V('ib'), N(c)), F.cmp_('<', V('ib'), N(c + 4))), [assign(V('ib'), N(1))]),
             W(F.cmp_('/=', el('ic', rng_(N(2), N(4))), el('ia', rng_(N(0), N(2)))), [assign(el('ia', rng_(N(0), N(2))), el('ic', rng_(N(2), N(4))))],
               [assign(el('ia', rng_(N(0), N(2))), N(c))]),
             W(F.cmp_('>', V('ra'), R(1)), [assign(V('ra'), op('prod', V('ra'), R(1, 2)))], [assign(V('ra'), op('sum', V('ra'), R(1, 4)))]),
             W(F.cmp_('<', V('ic'), N(3)), [assign(V('ic'), _m(op('sum', V('ic'), V('m')))), assign(V('ia'), V('ic'))]),
-            W(F.cmp_('>=', el('ia', rng_(N(0), N(4), N(2))), N(1)), [assign(el('ia', rng_(N(0), N(4), N(2))), N(0))]),
+            W(F.cmp_('>=', el('ia', rng_(N(1), N(3))), N(1)), [assign(el('ic', rng_(N(2), N(4))), N(0))]),
             {'s': 'where', 'conds': [F.cmp_('>', V('ia'), N(c + 1)), F.cmp_('<', V('ia'), N(0))],
              'bodies': [[assign(V('ia'), N(-3))], [assign(V('ia'), _m(op('sum', V('ia'), N(100))))]], 'els': [assign(V('ia'), N(7))]},
         ]
@@ -548,8 +548,8 @@ class SecGen(F.Gen):
             assign(V('ia'), call('mod', V('ic'), N(3))),
             assign(V('ia'), call('max', call('min', V('ia'), N(4)), V('ic'))),
             assign(el('ia', rng_(N(1), N(3))), call('sign', el('ic', rng_(N(2), N(4))), op('sum', el('ic', rng_(N(4), N(6))), N(-2)))),
-            assign(el('ib', rng_(), N(j)), call('modulo', el('ia', rng_(N(1), N(3))), N(4))),
-            assign(el('ia', rng_(N(0), N(2))), call('abs', el('ib', N(rng.randint(1, 3)), rng_()))),
+            assign(el('ib', rng_(N(1), N(3)), N(j)), call('modulo', el('ia', rng_(N(1), N(3))), N(4))),
+            assign(el('ia', rng_(N(0), N(2))), call('abs', el('ib', N(rng.randint(1, 3)), rng_(N(-1), N(1))))),
             assign(el('ra', rng_(N(1), N(3))), call('abs', op('sum', el('ra', rng_(N(1), N(3))), R(-1)))),
             assign(el('ra', rng_(N(1), N(3))), call('real', el('ia', rng_(N(0), N(2))))),
             assign(el('ia', rng_(N(0), N(3))), call('int', op('prod', V('ra'), R(2)))),
@@ -938,3 +938,105 @@ def deep_snippet(rng):
     return ('module kmod\n  implicit none\ncontains\n  subroutine kernel(n, m, ia, k)\n    integer, intent(in) :: n, m\n'
             '    integer, intent(inout) :: ia(0:4)\n    integer, intent(out) :: k\n    integer :: t\n' + '\n'.join(lines) +
             '\n    k = k + t\n  end subroutine kernel\nend module kmod\n')
+
+
+# ----------------------------------------------------------------------------- C30: partially resolved dimensions
+ASSUMED = {'k': 'assumed'}
+
+
+def xdecl(name, ty, intent, xdims):
+    """Array dummy with expression bounds / assumed shape (decl field "xdims", see FMachine.HasX)."""
+    d = decl(name, ty, intent, [(1, 1)] * len(xdims))
+    d['xdims'] = [[lo or NONE, hi] for lo, hi in xdims]
+    return d
+
+
+class DimGen(F.Gen):
+    """Section assignments of rank 2 and 3 in which only SOME range dimensions get resolved by one call, and the
+    resolved ones are not a prefix of the range dimensions:
+      * the "horizontal" dimension `ks:ke` (ks, ke scalar variables computed from the inputs, loop index jl) is a
+        trailing / middle dimension of ig(1:3,1:4), ih(1:3,1:4), it(1:2,1:3,1:4) - the two-step pipeline
+        resolve_vector_dimension(horizontal) + resolve_vector_notation resolves it first;
+      * the helper `hx(c, d, nn, ks, ke)` has ASSUMED-SHAPE dummies c(:,:), d(:,:): a bare `:` (shape unknown) stays
+        while `1:nn` / `ks:ke` behind it is resolved, also with resolve_implicit_rhs_ranges=False.
+    Every program uses one `form` (index into forms()); statements never overlap (same element or other array)."""
+
+    NFORMS = 10
+
+    def __init__(self, rng, features=(), form=0, always_call=False):
+        super().__init__(rng, tuple(features))
+        self.form = form
+        self.always_call = always_call      # every program also calls the assumed-shape helper
+
+    def forms(self):
+        r = lambda: rng_(V('ks'), V('ke'))
+        c = self.rng.randint(1, 3)
+        return [
+            [assign(el('ig', rng_(), r()), op('prod', N(2), el('ih', rng_(), r())))],
+            [assign(el('ig', rng_(), r()), _m(op('sum', el('ih', rng_(), r()), el('ig', rng_(), r()))))],
+            [assign(el('ig', rng_(N(1), N(3)), r()), _m(op('sum', el('ih', rng_(N(1), N(3)), r()), V('m'))))],
+            [assign(el('ig', rng_(N(1), N(2)), r()), el('ih', rng_(N(2), N(3)), r()))],
+            [assign(el('ig', rng_(), r()), op('prod', N(2), el('ih', rng_(), r()))),
+             assign(el('ig', N(c), r()), _m(op('sum', el('ig', N(c), r()), el('iv', r()))))],
+            [assign(el('it', rng_(), rng_(), r()), _m(op('sum', el('it', rng_(), rng_(), r()), N(c))))],
+            [assign(el('it', N(1), rng_(), r()), el('ih', rng_(), r()))],
+            [assign(el('ig', rng_(), r()), _m(op('sum', el('it', N(2), rng_(), r()), el('ih', rng_(), r()))))],
+            [{'s': 'call', 'name': 'hx', 'args': [V('ig'), V('ih'), N(self.rng.randint(2, 4)), V('ks'), V('ke')]}],
+            [{'s': 'call', 'name': 'hx', 'args': [el('it', N(c % 2 + 1), rng_(), rng_()), V('ih'), N(self.rng.randint(2, 4)), V('ks'), V('ke')]},
+             assign(el('ig', rng_(), r()), el('it', N(c % 2 + 1), rng_(), r()))],
+        ]
+
+    def section_stmt(self):
+        fs = self.forms()
+        return fs[self.form % len(fs)]
+
+    def helper(self):
+        body = [assign(el('c', rng_(), rng_(N(1), V('nn'))), op('sum', el('d', rng_(), rng_(N(1), V('nn'))), N(1))),
+                assign(el('c', rng_(), rng_(V('ks'), V('ke'))),
+                       _m(op('sum', op('prod', el('c', rng_(), rng_(V('ks'), V('ke'))), N(2)), el('d', rng_(), rng_(V('ks'), V('ke'))))))]
+        return unit('hx', ['c', 'd', 'nn', 'ks', 'ke'],
+                    [xdecl('c', 'int', 'inout', [(None, ASSUMED), (None, ASSUMED)]), xdecl('d', 'int', 'in', [(None, ASSUMED), (None, ASSUMED)]),
+                     decl('nn', 'int', 'in'), decl('ks', 'int', 'in'), decl('ke', 'int', 'in')], body)
+
+    def program(self, nstmts=4, depth=1):
+        rng = self.rng
+        self.arrays = {'ia': self.IA[1], 'ra': self.RA[1]}
+        self.active_loops = []
+        self.loop_range = {}
+        self.int_writable = ['k', 't1', 't2']
+        self.int_scalars = ['n', 'm', 'k', 't1', 't2']
+        self.int_scalars_noarr = list(self.int_scalars)
+        self.real_scalars = ['x', 'y']
+        self.real_writable = ['x', 'y']
+        self.helpers = []
+        self.functions = []
+        self.assoc_names = []
+        self.assoc_depth = 0
+        decls = [decl('n', 'int', 'in'), decl('m', 'int', 'in'), decl('flag', 'log', 'in'),
+                 decl('ia', 'int', 'inout', self.arrays['ia']), decl('ra', 'real', 'inout', self.arrays['ra']),
+                 decl('ig', 'int', 'inout', [(1, 3), (1, 4)]), decl('ih', 'int', 'in', [(1, 3), (1, 4)]), decl('iv', 'int', 'in', [(1, 4)]),
+                 decl('k', 'int', 'out'), decl('x', 'real', 'out')]
+        args = ['n', 'm', 'flag', 'ia', 'ra', 'ig', 'ih', 'iv', 'k', 'x']
+        decls += [decl(v, 'int') for v in ('i', 'j', 'l', 'w', 't1', 't2', 'ks', 'ke', 'jl')] + [decl('y', 'real'), decl('it', 'int', 'local', [(1, 2), (1, 3), (1, 4)])]
+        loop = lambda v, lo, hi, body: {'s': 'do', 'var': v, 'lo': N(lo), 'hi': N(hi), 'st': NONE, 'body': body}
+        init = [assign(V('k'), N(0)), assign(V('x'), R(0)), assign(V('t1'), V('m')), assign(V('t2'), N(1)), assign(V('y'), R(1, 2)),
+                assign(V('ks'), op('sum', N(1), call('mod', call('abs', V('n')), N(2)))),
+                assign(V('ke'), op('sum', N(3), call('mod', call('abs', V('m')), N(2)))),
+                loop('l', 1, 4, [loop('j', 1, 3, [loop('i', 1, 2, [
+                    assign(el('it', V('i'), V('j'), V('l')), call('mod', op('sum', op('sum', op('prod', V('i'), N(5)), op('prod', V('j'), N(3))), op('sum', V('l'), V('n'))), N(11)))])])])]
+        main = self.block(depth, nstmts)
+        main[rng.randint(0, len(main)):0] = self.section_stmt()
+        if rng.random() < 0.5:
+            main += self.section_stmt()
+        if self.always_call and self.form % self.NFORMS < 8:
+            main += self.forms()[8 + rng.randrange(2)]
+        body = init + main
+        body += [loop('l', 1, 4, [loop('j', 1, 3, [loop('i', 1, 2, [
+            assign(V('k'), call('mod', op('sum', op('prod', V('k'), N(3)), el('it', V('i'), V('j'), V('l'))), N(101)))])])])]
+        prog = {'units': [unit('kernel', args, decls, body), self.helper()]}
+        prog['form'] = f'f{self.form % self.NFORMS}'
+        return prog
+
+    def inputs(self, prog, count=4):
+        out = super().inputs(prog, count)
+        return out
